@@ -87,11 +87,18 @@ def cmd_stage(a):
     """development aid (not a registered check): run the cluster stage for one profile and a set of predicate
     prefixes, e.g.  ./verif stage C09_ quota 400 ; evidence is NOT written (scratch context)."""
     import st_cluster
-    os.environ.setdefault("VERIF_OUT", "/tmp/verif-stage-out")
     seed = int(os.environ.get("VERIF_SEED", "1") or "1")
     ctx = vlib.Ctx("DEV", "quick", seed, "exploration")
     try:
-        st_cluster.run_stage(ctx, a.prefixes.split(","), [(a.profile, a.n)])
+        if a.profile.endswith(".json"):
+            # one hand-made scenario file (ndjson of scenario records)
+            binary = vlib.go_build("cluster")
+            trace = os.path.join(ctx.scratch, "one.ndjson")
+            vlib.run_harness(binary, ["-in", a.profile, "-out", trace], timeout=600)
+            vlib.validate_traces(ctx, st_cluster.MODULE, trace, st_cluster.invariants(a.prefixes.split(",")), tuple(a.prefixes.split(",")),
+                                 timeout=600, heap="4g", sig_detail=st_cluster.sig_detail)
+        else:
+            st_cluster.run_stage(ctx, a.prefixes.split(","), [(a.profile, a.n)])
         for sig, text, path in ctx.violations:
             print("DEV-VIOLATION", sig)
             print(text[:3000])
